@@ -293,6 +293,475 @@ theorem C02_finding_deploy_running_update_dropped : ¬ C02_deploy_iff_full := by
   have := h [(true, .okEarly)] 0
   revert this; decide
 
+/-! ## the corners are exhaustive; with the repairs the Spec holds
+
+  `Trans.judge` (Spec/C02.lean) is the decidable predicate the correspondence harness evaluates on what the real
+  core did. Here it is evaluated on what the MODEL does, for every scenario. -/
+
+/-- The verdict names a recorded corner (or there is no violation). -/
+def Named (r : Option String) : Prop := r ≠ some "-"
+
+theorem commands_iff (e : Ev) : commands e = true ↔ commandEv e := by
+  cases e <;> simp [commands, commandEv]
+
+theorem dst_ne_error (e : Ev) (he : commandEv e) (s d : St) (hd : dst? e s = some d) : d ≠ .ERROR := by
+  rcases he with rfl | rfl | rfl | rfl <;> (revert hd; cases s <;> simp [dst?] <;> (intro h; subst h; decide))
+
+theorem bodyFor_hang (e : Ev) (ts : List Target) (h : bodyFor Cfg.code e ts = .hang) : e = .CONFIGURE ∧ ts = [] := by
+  cases e <;> simp only [bodyFor, commandBody, configureBody] at h
+  case CONFIGURE =>
+    refine ⟨rfl, ?_⟩
+    cases ts with
+    | nil => rfl
+    | cons t r =>
+      simp only [List.isEmpty_cons, Bool.false_eq_true, ↓reduceIte] at h
+      split at h <;> cases h
+  all_goals (first | cases h | (split at h <;> cases h))
+
+/-- body fails although every critical target acknowledged: one of the two corners. -/
+theorem error_acked_corner (cfg : Cfg) (e : Ev) (he : commandEv e) (ts : List Target)
+    (hb : bodyFor cfg e ts ≠ .ok) (ha : allCriticalAcked ts = true) :
+    noTargets ts = true ∨ singleNoncritFail ts = true := by
+  cases h0 : noTargets ts
+  · right
+    cases h1 : singleNoncritFail ts
+    · exfalso; apply hb
+      rw [bodyFor_ok cfg e he ts h0, classify_acked cfg ts h0 (Or.inl h1), ha]
+    · rfl
+  · left; rfl
+
+theorem controlStep_hang (cfg : Cfg) (env : Env) (tasks : List Task) (e : Ev) (d : St) (outs : List Outcome) (w : Bool)
+    (hd : dst? e env.st = some d) (hb : bodyFor cfg e (targets (pair tasks outs)) = .hang) :
+    controlStep cfg env tasks e outs w =
+      ({ ev := some e, rpc := .hang, state := none, after := some env.st, cmd := [] }, env, tasks) := by
+  unfold controlStep
+  simp [hd, hb]
+
+theorem controlStep_ok (cfg : Cfg) (env : Env) (tasks : List Task) (e : Ev) (d : St) (outs : List Outcome) (w : Bool)
+    (hp : env.pending = []) (hd : dst? e env.st = some d)
+    (hb : bodyFor cfg e (targets (pair tasks outs)) = .ok) :
+    controlStep cfg env tasks e outs w =
+      ({ ev := some e, rpc := .ok, state := some d, after := some d, cmd := cmdIdx tasks },
+       (tryTransition env [] e true false).1, afterCommand tasks outs) := by
+  have hf := fsmEvent_nohooks env e d true hp hd
+  have hr := controlRpc_ok cfg env [] e true false w hf.2.1
+  have hst : (tryTransition env [] e true false).1.st = d := by simpa [tryTransition] using hf.2.2
+  unfold controlStep
+  simp [hd, hb, hr, hst]
+
+theorem controlStep_error (cfg : Cfg) (env : Env) (tasks : List Task) (e : Ev) (d : St) (outs : List Outcome) (w : Bool)
+    (hd : dst? e env.st = some d)
+    (hb : bodyFor cfg e (targets (pair tasks outs)) = .error) :
+    ∃ k : Bool, (controlStep cfg env tasks e outs w).1 =
+      { ev := some e, rpc := if k then .ok else .err, state := if k then some .ERROR else none,
+        after := some .ERROR, cmd := cmdIdx tasks } := by
+  have hf := fsmEvent_body_fails env [] e false
+  have hst := controlRpc_failed_error cfg env [] e false false w hf
+  refine ⟨(controlRpc cfg env [] e false false w).2, ?_⟩
+  unfold controlStep
+  simp [hd, hb, hst]
+
+theorem named_none : Named none := by simp [Named]
+
+theorem judgeSteps_no_obs (st : St) (tasks : List Task) (steps : List SStep) : judgeSteps st tasks steps [] = none := by
+  cases steps <;> simp [judgeSteps]
+
+theorem judgeSteps_die (st : St) (tasks : List Task) (outs : List Outcome) (rest : List SStep) (os : List Obs) :
+    judgeSteps st tasks (.die outs :: rest) os = judgeSteps st (afterCommand tasks outs) rest os := by
+  cases os with
+  | nil => rw [judgeSteps_no_obs, judgeSteps_no_obs]
+  | cons o os => simp [judgeSteps]
+
+theorem judgeCtl_hang (e : Ev) (d : St) (s : St) :
+    Named (judgeCtl e d [] { ev := some e, rpc := .hang, state := none, after := some s, cmd := [] }) := by
+  simp only [judgeCtl, allCriticalAcked, List.all_nil, Trans.reqOk, reached, noTargets, List.isEmpty_nil]
+  by_cases h : e = .CONFIGURE <;> simp [h, Named]
+
+theorem judgeCtl_ok (e : Ev) (d : St) (ts : List Target) (cmd : List Nat) (ha : allCriticalAcked ts = true) :
+    judgeCtl e d ts { ev := some e, rpc := .ok, state := some d, after := some d, cmd := cmd } = none := by
+  simp [judgeCtl, ha, Trans.reqOk]
+
+theorem judgeCtl_error (e : Ev) (d : St) (hd : d ≠ .ERROR) (ts : List Target) (cmd : List Nat) (k : Bool)
+    (hcorner : allCriticalAcked ts = true → noTargets ts = true ∨ singleNoncritFail ts = true) :
+    let o : Obs := { ev := some e, rpc := if k then .ok else .err, state := if k then some .ERROR else none,
+                     after := some .ERROR, cmd := cmd }
+    Named (judgeCtl e d ts o) ∧ reached d o = false := by
+  intro o
+  have hne : St.ERROR ≠ d := fun h => hd h.symm
+  have hr : reached d o = false := by
+    cases k <;> simp [reached, o, hne]
+  refine ⟨?_, hr⟩
+  cases ha : allCriticalAcked ts
+  · cases k <;> simp [judgeCtl, ha, Trans.reqOk, o, hne, reached, Named]
+  · rcases hcorner ha with h0 | h1
+    · cases k <;> by_cases hc : e = .CONFIGURE <;> simp [judgeCtl, ha, Trans.reqOk, o, hne, reached, Named, h0, hc]
+    · cases h0 : noTargets ts <;> cases k <;> by_cases hc : e = .CONFIGURE <;>
+        simp [judgeCtl, ha, Trans.reqOk, o, hne, reached, Named, h0, h1, hc]
+
+theorem unacked_body (cfg : Cfg) (e : Ev) (he : commandEv e) (ts : List Target)
+    (hb : bodyFor cfg e ts = .ok) : allCriticalAcked ts = true := by
+  cases ha : allCriticalAcked ts
+  · exact absurd hb (C02_unacked_never_reported cfg e he ts ha)
+  · rfl
+
+/-- Along any sequence of requests the model (code as it is) violates the Spec only inside a recorded corner. -/
+theorem steps_named (steps : List SStep) : ∀ (env : Env) (tasks : List Task), env.pending = [] →
+    Named (judgeSteps env.st tasks steps (runSteps Cfg.code env tasks steps)) := by
+  induction steps with
+  | nil => intro env tasks _; simp [judgeSteps, Named]
+  | cons s rest ih =>
+    intro env tasks hp
+    cases s with
+    | die outs =>
+      rw [judgeSteps_die]
+      simp only [runSteps]
+      exact ih env _ hp
+    | ctl e outs w =>
+      cases hc : commands e with
+      | false =>
+        simp only [runSteps]
+        split <;> simp [judgeSteps, hc, Named]
+      | true =>
+      have he := (commands_iff e).1 hc
+      cases hd : dst? e env.st with
+      | none =>
+        simp only [runSteps]
+        split <;> simp [judgeSteps, hc, hd, Named]
+      | some d =>
+        have hdne := dst_ne_error e he env.st d hd
+        cases hb : bodyFor Cfg.code e (targets (pair tasks outs)) with
+        | hang =>
+          obtain ⟨_, hts⟩ := bodyFor_hang e _ hb
+          have hcs := controlStep_hang Cfg.code env tasks e d outs w hd hb
+          simp only [runSteps, hcs]
+          simp only [show (Rpc.hang = Rpc.ok) = False from by simp, false_and, ↓reduceIte]
+          simp only [judgeSteps, hc, hd, hts, Bool.not_true, Bool.false_eq_true, ↓reduceIte]
+          have := judgeCtl_hang e d env.st
+          revert this; generalize judgeCtl e d [] _ = r; intro this
+          cases r with
+          | some h => simpa using this
+          | none => simp [reached, Named]
+        | ok =>
+          have hcs := controlStep_ok Cfg.code env tasks e d outs w hp hd hb
+          have ha := unacked_body Cfg.code e he _ hb
+          have hf := fsmEvent_nohooks env e d true hp hd
+          have hj := judgeCtl_ok e d (targets (pair tasks outs)) (cmdIdx tasks) ha
+          simp only [runSteps, hcs]
+          split
+          · simp only [judgeSteps, hc, hd, Bool.not_true, Bool.false_eq_true, ↓reduceIte, hj]
+            simp only [reached, decide_true, Bool.and_self, ↓reduceIte]
+            have := ih (tryTransition env [] e true false).1 (afterCommand tasks outs) hf.1
+            have hst : (tryTransition env [] e true false).1.st = d := by simpa [tryTransition] using hf.2.2
+            rw [hst] at this; exact this
+          · simp only [judgeSteps, hc, hd, Bool.not_true, Bool.false_eq_true, ↓reduceIte, hj]
+            simp only [reached, decide_true, Bool.and_self, ↓reduceIte, judgeSteps_no_obs]
+            exact named_none
+        | error =>
+          obtain ⟨k, hk⟩ := controlStep_error Cfg.code env tasks e d outs w hd hb
+          have hcorner : allCriticalAcked (targets (pair tasks outs)) = true →
+              noTargets (targets (pair tasks outs)) = true ∨ singleNoncritFail (targets (pair tasks outs)) = true :=
+            fun ha => error_acked_corner Cfg.code e he _ (by rw [hb]; decide) ha
+          have hj := judgeCtl_error e d hdne (targets (pair tasks outs)) (cmdIdx tasks) k hcorner
+          simp only [runSteps]
+          have hnot : ¬ ((controlStep Cfg.code env tasks e outs w).1.rpc = Rpc.ok ∧
+              (controlStep Cfg.code env tasks e outs w).1.state = dst? e env.st ∧ (dst? e env.st).isSome = true) := by
+            rw [hk, hd]; intro h; cases k <;> simp at h
+            exact hdne h.symm
+          simp only [hnot, false_and, ↓reduceIte]
+          simp only [judgeSteps, hc, hd, Bool.not_true, Bool.false_eq_true, ↓reduceIte, hk]
+          obtain ⟨hn, hr⟩ := hj
+          revert hn; generalize judgeCtl e d _ _ = r; intro hn
+          cases r with
+          | some h => simpa using hn
+          | none => simp only [hr, Bool.false_eq_true, ↓reduceIte]; exact named_none
+
+def tasks0 (wf : Workflow) : List Task := wf.tasks.map (fun t => { critical := t.1, active := t.2 = .ok })
+
+theorem deploy_ok_launched (ls : List (Bool × Launch)) (calls : Nat) (h : deployBody ls calls = .ok) :
+    allCriticalLaunched ls = true := by
+  cases ha : allCriticalLaunched ls
+  · exact absurd h (C02_deploy_critical_needed ls calls ha)
+  · rfl
+
+theorem deployBody_not_hang (ls : List (Bool × Launch)) (calls : Nat) : deployBody ls calls ≠ .hang := by
+  unfold deployBody; split <;> simp
+
+theorem new_env_ok (d : Env) (hd : d = (tryTransition ({} : Env) [] .DEPLOY true false).1) :
+    (tryTransition d [] .CONFIGURE true false).1.pending = [] ∧
+    (tryTransition d [] .CONFIGURE true false).1.st = .CONFIGURED := by
+  have h1 := fsmEvent_nohooks ({} : Env) .DEPLOY .DEPLOYED true rfl rfl
+  have hp : d.pending = [] := by rw [hd]; exact h1.1
+  have hs : d.st = .DEPLOYED := by rw [hd]; simpa [tryTransition] using h1.2.2
+  have h2 := fsmEvent_nohooks d .CONFIGURE .CONFIGURED true hp (by rw [hs]; rfl)
+  exact ⟨h2.1, by simpa [tryTransition] using h2.2.2⟩
+
+theorem create_named (wf : Workflow) (outs : List Outcome) :
+    Named (judgeNew wf (targets (pair (tasks0 wf) outs)) (createEnvironment Cfg.code wf outs).1) ∧
+    (∀ env tasks, (createEnvironment Cfg.code wf outs).2 = some (env, tasks) →
+      env.pending = [] ∧ env.st = .CONFIGURED ∧ tasks = afterCommand (tasks0 wf) outs) := by
+  unfold createEnvironment
+  cases hdep : deployBody wf.tasks wf.calls with
+  | hang => exact absurd hdep (deployBody_not_hang _ _)
+  | error =>
+    simp only
+    refine ⟨?_, by intro _ _ h; cases h⟩
+    cases hl : allCriticalLaunched wf.tasks
+    · simp [judgeNew, hl, Trans.reqOk, Named]
+    · cases ha : allCriticalAcked (targets (pair (tasks0 wf) outs))
+      · simp [judgeNew, hl, ha, Trans.reqOk, Named]
+      · -- every critical task started and would have acknowledged, yet DEPLOY failed: one of the three DEPLOY corners
+        cases h0 : emptyWorkflow wf <;> cases h2 : earlyRunning wf.tasks <;> cases h1 : noncritLaunchFail wf.tasks <;>
+          simp [judgeNew, hl, ha, Trans.reqOk, reached, Named, h0, h1, h2]
+        have := (C02_deploy_iff_partial wf.tasks wf.calls h0 h1 h2).2 hl
+        rw [hdep] at this; cases this
+  | ok =>
+    simp only
+    have hl := deploy_ok_launched _ _ hdep
+    have henv := new_env_ok _ rfl
+    cases hb : configureBody Cfg.code (targets (pair (tasks0 wf) outs)) with
+    | hang =>
+      have hts : targets (pair (tasks0 wf) outs) = [] := (bodyFor_hang .CONFIGURE _ hb).2
+      simp only [tasks0] at hb hts
+      simp only [hb]
+      refine ⟨?_, by intro _ _ h; cases h⟩
+      simp only [tasks0, hts]
+      cases h0 : emptyWorkflow wf <;> cases h2 : earlyRunning wf.tasks <;> cases h1 : noncritLaunchFail wf.tasks <;>
+        simp [judgeNew, hl, allCriticalAcked, Trans.reqOk, reached, Named, h0, h1, h2, noTargets]
+    | error =>
+      simp only [tasks0] at hb
+      simp only [hb]
+      refine ⟨?_, by intro _ _ h; cases h⟩
+      cases ha : allCriticalAcked (targets (pair (tasks0 wf) outs))
+      · simp [judgeNew, hl, ha, Trans.reqOk, Named]
+      · have hcorner := error_acked_corner Cfg.code .CONFIGURE (Or.inl rfl) _
+          (show bodyFor Cfg.code .CONFIGURE (targets (pair (tasks0 wf) outs)) ≠ .ok by
+            simp only [bodyFor, tasks0, hb]; decide) ha
+        rcases hcorner with hc | hc <;>
+          cases h0 : emptyWorkflow wf <;> cases h2 : earlyRunning wf.tasks <;> cases h1 : noncritLaunchFail wf.tasks <;>
+          cases h3 : noTargets (targets (pair (tasks0 wf) outs)) <;>
+          simp_all [judgeNew, Trans.reqOk, reached, Named]
+    | ok =>
+      simp only [tasks0] at hb
+      simp only [hb]
+      have ha : allCriticalAcked (targets (pair (tasks0 wf) outs)) = true :=
+        unacked_body Cfg.code .CONFIGURE (Or.inl rfl) _ (by simp only [bodyFor, tasks0, hb])
+      refine ⟨?_, ?_⟩
+      · simp [judgeNew, hl, ha, Trans.reqOk, henv.2, Named]
+      · intro env tasks h
+        simp only [Option.some.injEq, Prod.mk.injEq] at h
+        obtain ⟨h1, h2⟩ := h
+        subst h1; subst h2
+        exact ⟨henv.1, henv.2, rfl⟩
+
+theorem judge_cons (sc : Scenario) (o : Obs) (os : List Obs)
+    (hn : Named (judgeNew sc.wf (targets (pair (tasks0 sc.wf) sc.configure)) o))
+    (hos : Named (judgeSteps .CONFIGURED (afterCommand (tasks0 sc.wf) sc.configure) sc.steps os)) :
+    Named (judge sc (o :: os)) := by
+  simp only [judge]
+  simp only [tasks0] at hn hos
+  revert hn
+  generalize judgeNew sc.wf _ _ = r
+  intro hn
+  cases r with
+  | some h => simpa using hn
+  | none =>
+    simp only
+    split
+    · exact hos
+    · exact named_none
+
+/-- The recorded corners are EXHAUSTIVE: for every workflow, every outcome assignment and every request sequence,
+    whenever what the model of the code does is rejected by Spec.C02, the scenario lies in one of the named corners
+    (the verdict is never the anonymous "-"). With the correspondence run (model = implementation) this is what makes
+    "only KNOWN-FINDING lines" a complete account. -/
+theorem C02_corners_exhaustive (sc : Scenario) : judge sc (run Cfg.code sc) ≠ some "-" := by
+  obtain ⟨hn, hsome⟩ := create_named sc.wf sc.configure
+  have hnil : Named (judge sc [(createEnvironment Cfg.code sc.wf sc.configure).1]) :=
+    judge_cons sc _ [] hn (by rw [judgeSteps_no_obs]; exact named_none)
+  unfold run
+  simp only
+  cases hc : (createEnvironment Cfg.code sc.wf sc.configure).2 with
+  | none => exact hnil
+  | some p =>
+    obtain ⟨env, tasks⟩ := p
+    obtain ⟨hp, hst, ht⟩ := hsome env tasks hc
+    simp only
+    split
+    · exact hnil
+    · refine judge_cons sc _ _ hn ?_
+      have := steps_named sc.steps env tasks hp
+      rw [hst] at this
+      rw [← ht]
+      exact this
+
+/-! ### with the repairs on, the Spec holds -/
+
+theorem ite_ne_hang (c : Prop) [Decidable c] : (if c then BodyRes.ok else BodyRes.error) ≠ .hang := by
+  split <;> simp
+
+theorem bodyFor_fixed_not_hang (e : Ev) (ts : List Target) : bodyFor Cfg.fixed e ts ≠ .hang := by
+  cases e <;> simp only [bodyFor, commandBody, configureBody, Cfg.fixed, ↓reduceIte]
+  case CONFIGURE =>
+    by_cases h : ts.isEmpty = true
+    · simp [h]
+    · simp only [h, Bool.false_eq_true, ↓reduceIte]; exact ite_ne_hang _
+  all_goals first | exact ite_ne_hang _ | decide
+
+theorem controlRpc_fixed_err (env : Env) (hooks : List Hook) (e : Ev) (r w : Bool) :
+    (controlRpc Cfg.fixed env hooks e false r w).2 = false := by
+  unfold controlRpc
+  simp [fsmEvent_body_fails env hooks e r, tryTransition, Cfg.fixed]
+
+theorem controlStep_error_fixed (env : Env) (tasks : List Task) (e : Ev) (d : St) (outs : List Outcome) (w : Bool)
+    (hd : dst? e env.st = some d)
+    (hb : bodyFor Cfg.fixed e (targets (pair tasks outs)) = .error) :
+    (controlStep Cfg.fixed env tasks e outs w).1 =
+      { ev := some e, rpc := .err, state := none, after := some .ERROR, cmd := cmdIdx tasks } := by
+  have hf := fsmEvent_body_fails env [] e false
+  have hst := controlRpc_failed_error Cfg.fixed env [] e false false w hf
+  have hr := controlRpc_fixed_err env [] e false w
+  unfold controlStep
+  simp [hd, hb, hst, hr]
+
+theorem iff_fixed_ts (e : Ev) (he : commandEv e) (tasks : List Task) (outs : List Outcome) :
+    bodyFor Cfg.fixed e (targets (pair tasks outs)) = .ok ↔ allCriticalAcked (targets (pair tasks outs)) = true :=
+  C02_iff_fixed e he (pair tasks outs)
+
+theorem steps_fixed (steps : List SStep) : ∀ (env : Env) (tasks : List Task), env.pending = [] →
+    judgeSteps env.st tasks steps (runSteps Cfg.fixed env tasks steps) = none := by
+  induction steps with
+  | nil => intro env tasks _; simp [judgeSteps]
+  | cons s rest ih =>
+    intro env tasks hp
+    cases s with
+    | die outs =>
+      rw [judgeSteps_die]
+      simp only [runSteps]
+      exact ih env _ hp
+    | ctl e outs w =>
+      cases hc : commands e with
+      | false =>
+        simp only [runSteps]
+        split <;> simp [judgeSteps, hc]
+      | true =>
+      have he := (commands_iff e).1 hc
+      cases hd : dst? e env.st with
+      | none =>
+        simp only [runSteps]
+        split <;> simp [judgeSteps, hc, hd]
+      | some d =>
+        have hdne := dst_ne_error e he env.st d hd
+        cases hb : bodyFor Cfg.fixed e (targets (pair tasks outs)) with
+        | hang => exact absurd hb (bodyFor_fixed_not_hang _ _)
+        | ok =>
+          have hcs := controlStep_ok Cfg.fixed env tasks e d outs w hp hd hb
+          have ha := (iff_fixed_ts e he tasks outs).1 hb
+          have hf := fsmEvent_nohooks env e d true hp hd
+          have hj := judgeCtl_ok e d (targets (pair tasks outs)) (cmdIdx tasks) ha
+          simp only [runSteps, hcs]
+          split
+          · simp only [judgeSteps, hc, hd, Bool.not_true, Bool.false_eq_true, ↓reduceIte, hj]
+            simp only [reached, decide_true, Bool.and_self, ↓reduceIte]
+            have := ih (tryTransition env [] e true false).1 (afterCommand tasks outs) hf.1
+            have hst : (tryTransition env [] e true false).1.st = d := by simpa [tryTransition] using hf.2.2
+            rw [hst] at this; exact this
+          · simp only [judgeSteps, hc, hd, Bool.not_true, Bool.false_eq_true, ↓reduceIte, hj]
+            simp only [reached, decide_true, Bool.and_self, ↓reduceIte, judgeSteps_no_obs]
+        | error =>
+          have hk := controlStep_error_fixed env tasks e d outs w hd hb
+          have ha : allCriticalAcked (targets (pair tasks outs)) = false := by
+            cases h : allCriticalAcked (targets (pair tasks outs))
+            · rfl
+            · have := (iff_fixed_ts e he tasks outs).2 h; rw [hb] at this; cases this
+          simp only [runSteps]
+          have hnot : ¬ ((controlStep Cfg.fixed env tasks e outs w).1.rpc = Rpc.ok ∧
+              (controlStep Cfg.fixed env tasks e outs w).1.state = dst? e env.st ∧ (dst? e env.st).isSome = true) := by
+            rw [hk]; simp
+          simp only [hnot, false_and, ↓reduceIte]
+          simp [judgeSteps, hc, hd, hk, judgeCtl, ha, Trans.reqOk, reached]
+
+theorem create_fixed (wf : Workflow) (outs : List Outcome)
+    (h0 : emptyWorkflow wf = false) (h1 : noncritLaunchFail wf.tasks = false) (h2 : earlyRunning wf.tasks = false) :
+    judgeNew wf (targets (pair (tasks0 wf) outs)) (createEnvironment Cfg.fixed wf outs).1 = none ∧
+    (∀ env tasks, (createEnvironment Cfg.fixed wf outs).2 = some (env, tasks) →
+      env.pending = [] ∧ env.st = .CONFIGURED ∧ tasks = afterCommand (tasks0 wf) outs) := by
+  unfold createEnvironment
+  cases hdep : deployBody wf.tasks wf.calls with
+  | hang => exact absurd hdep (deployBody_not_hang _ _)
+  | error =>
+    simp only
+    refine ⟨?_, by intro _ _ h; cases h⟩
+    have hl : allCriticalLaunched wf.tasks = false := by
+      cases h : allCriticalLaunched wf.tasks
+      · rfl
+      · have := (C02_deploy_iff_partial wf.tasks wf.calls h0 h1 h2).2 h; rw [hdep] at this; cases this
+    simp [judgeNew, hl, Trans.reqOk]
+  | ok =>
+    simp only
+    have hl := deploy_ok_launched _ _ hdep
+    have henv := new_env_ok _ rfl
+    have hiff := iff_fixed_ts .CONFIGURE (Or.inl rfl) (tasks0 wf) outs
+    simp only [bodyFor] at hiff
+    cases hb : configureBody Cfg.fixed (targets (pair (tasks0 wf) outs)) with
+    | hang => exact absurd (show bodyFor Cfg.fixed .CONFIGURE _ = .hang from hb) (bodyFor_fixed_not_hang _ _)
+    | error =>
+      have ha : allCriticalAcked (targets (pair (tasks0 wf) outs)) = false := by
+        cases h : allCriticalAcked (targets (pair (tasks0 wf) outs))
+        · rfl
+        · have := hiff.2 h; rw [hb] at this; cases this
+      simp only [tasks0] at hb
+      simp only [hb]
+      refine ⟨?_, by intro _ _ h; cases h⟩
+      simp [judgeNew, hl, ha, Trans.reqOk]
+    | ok =>
+      have ha := hiff.1 hb
+      simp only [tasks0] at hb
+      simp only [hb]
+      refine ⟨?_, ?_⟩
+      · simp [judgeNew, hl, ha, Trans.reqOk, henv.2]
+      · intro env tasks h
+        simp only [Option.some.injEq, Prod.mk.injEq] at h
+        obtain ⟨h1, h2⟩ := h
+        subst h1; subst h2
+        exact ⟨henv.1, henv.2, rfl⟩
+
+theorem judge_cons_none (sc : Scenario) (o : Obs) (os : List Obs)
+    (hn : judgeNew sc.wf (targets (pair (tasks0 sc.wf) sc.configure)) o = none)
+    (hos : judgeSteps .CONFIGURED (afterCommand (tasks0 sc.wf) sc.configure) sc.steps os = none) :
+    judge sc (o :: os) = none := by
+  simp only [judge]
+  simp only [tasks0] at hn hos
+  rw [hn]
+  simp only
+  split
+  · exact hos
+  · rfl
+
+/-- With the three repairs on, the model satisfies Spec.C02 on EVERY scenario whose workflow has a role, in which no
+    non-critical task fails to start and no TASK_RUNNING update overtakes the roster (the DEPLOY corners, for which
+    no small repair is proposed). -/
+theorem C02_spec_fixed (sc : Scenario) (h0 : emptyWorkflow sc.wf = false)
+    (h1 : noncritLaunchFail sc.wf.tasks = false) (h2 : earlyRunning sc.wf.tasks = false) :
+    judge sc (run Cfg.fixed sc) = none := by
+  obtain ⟨hn, hsome⟩ := create_fixed sc.wf sc.configure h0 h1 h2
+  have hnil : judge sc [(createEnvironment Cfg.fixed sc.wf sc.configure).1] = none :=
+    judge_cons_none sc _ [] hn (judgeSteps_no_obs _ _ _)
+  unfold run
+  simp only
+  cases hc : (createEnvironment Cfg.fixed sc.wf sc.configure).2 with
+  | none => exact hnil
+  | some p =>
+    obtain ⟨env, tasks⟩ := p
+    obtain ⟨hp, hst, ht⟩ := hsome env tasks hc
+    simp only
+    split
+    · exact hnil
+    · refine judge_cons_none sc _ _ hn ?_
+      have := steps_fixed sc.steps env tasks hp
+      rw [hst] at this
+      rw [← ht]
+      exact this
+
 /-! ## non-vacuity -/
 
 /-- A realistic mix satisfies the hypotheses of the partial theorems: two critical tasks and a failing non-critical one. -/
